@@ -199,9 +199,14 @@ func c05SndRun(t *testing.T, ops []string, o *Out) {
 		ic := o.Wrap(ic0) // the case's ambient: transparent neighbours / a one-element chain (ambient_test.go)
 		var mu sync.Mutex
 		var batches [][]rtcp.Packet
+		nBatch := 0
+		defer o.EndKept()
 		ic.BindRTCPWriter(interceptor.RTCPWriterFunc(func(pkts []rtcp.Packet, _ interceptor.Attributes) (int, error) {
 			mu.Lock()
 			batches = append(batches, pkts)
+			nBatch++
+			// the writer owns what it was given (it may queue it): kept by pointer, re-rendered after every later op
+			o.KeepRTCPs(fmt.Sprintf("write#%d", nBatch), pkts)
 			mu.Unlock()
 			return 0, o.RTCPWriteErr() // the transport may refuse chosen calls (ambient failrtcp=)
 		}))
@@ -244,6 +249,7 @@ func c05SndRun(t *testing.T, ops []string, o *Out) {
 		buf := make([]byte, 1500)
 		rtpSeq := uint16(0)
 		for _, op := range ops[start:] {
+			o.CheckKept()
 			fs := strings.Fields(op)
 			name, m := kv(op)
 			switch {
@@ -331,11 +337,13 @@ func c05SndRun(t *testing.T, ops []string, o *Out) {
 			}
 		}
 		spend()
+		o.CheckKeptAll()
 		if err := ic.Close(); err != nil {
 			o.P("err:close")
 		}
 		synctest.Wait()
 		flush()
+		o.CheckKeptAll()
 	})
 }
 
